@@ -212,6 +212,7 @@ class Recv(object):
         self.cap_given = None   # bytes available behind a char* (object size - offset)
         self.reply_len = None
         self.reply_arr = None
+        self.reply_value = None # scalar the library wrote through a native pointer argument
         self.elems = None
 
 
@@ -322,10 +323,21 @@ class Stub(object):
         if len(argv) - k != len(params) and len(argv) - k != nfull:
             raise Unsupported("library call %s has %d arguments, declaration has %d" % (name, len(argv) - k, len(params)))
         # arguments beyond this arity are the C++ defaults the compiler supplied at the call site
+        res_dim = ((info.result.attrs.get("dimension") or "") if info.result is not None else "")
+        res_dim_names = set(re.findall(r"[A-Za-z_]\w*", res_dim if isinstance(res_dim, str) else ""))
         for p, v, t in zip(params, argv[k:], argt[k:]):
             r = Recv()
             kind = p.kind()
             r.value = v
+            if kind == "nativep" and p.intent in ("out", "inout") and p.name in res_dim_names and isinstance(v, Ptr) and v.obj is not None \
+                    and ir.resolve(t).kind == "ptr":
+                # an extent the library reports through an argument (int *n +intent(out) named in the result's dimension):
+                # the library writes an arbitrary small non-negative value there
+                bits = ir.size_of(ir.resolve(t).to) * 8
+                rv = ex.fresh("lib_out_" + p.name, bits)
+                ex.e.assume(z3.And(rv >= 0, rv <= 4))
+                ex.store_int(v, rv, bits)
+                r.reply_value = rv
             if kind == "charp":
                 r.ptr = v
                 if isinstance(v, Ptr) and v.obj is not None:
@@ -865,6 +877,21 @@ class WrapperHarness(object):
                                     z3.And(z3.ULT(i, want), z3.Select(addr.obj.arr, bv(addr.off) + i) != z3.Select(rinfo["arr"], i))))
                     else:
                         out.append(("allocatable result: address is NULL although the string is not empty", want != 0))
+            elif kind == "nativep" and ctx is not None:
+                # pointer result described by an array context: the extents are the declared dimension evaluated AFTER the
+                # call (an extent may name an argument the library writes)
+                dim = rp.attrs.get("dimension")
+                names = re.findall(r"[A-Za-z_]\w*", dim) if isinstance(dim, str) else []
+                wrote = {p_.name: r_.reply_value for p_, r_ in zip(info.params, recs) if getattr(r_, "reply_value", None) is not None}
+                if isinstance(dim, str) and re.match(r"^\s*[A-Za-z_]\w*\s*$", dim) and names[0] in wrote and not rinfo.get("null"):
+                    st = ir.resolve(self.module.functions[self.cname].params[[k for k, (r_, _) in enumerate(info.roles()) if r_ == "res_context"][0]][0]).to
+                    rs = ir.resolve(st)
+                    n_ = sx(wrote[names[0]])
+                    out.append(("pointer result: the context's rank is not 1 for dimension(%s)" % dim.strip(), ex.load_int(Ptr(ctx, ir.field_offset(rs, 5)), 32) != 1))
+                    out.append(("pointer result: shape(1) is not the extent '%s' the library reported through its argument" % names[0],
+                                ex.load_int(Ptr(ctx, ir.field_offset(rs, 6)), 64) != n_))
+                    out.append(("pointer result: size is not the extent '%s' the library reported through its argument" % names[0],
+                                ex.load_int(Ptr(ctx, ir.field_offset(rs, 4)), 64) != n_))
             elif kind == "nativep" and ctx is None:
                 a, b = self.ret, rinfo.get("value")
                 same = isinstance(a, Ptr) and isinstance(b, Ptr) and a.obj is b.obj and (a.obj is None or conc(a.off) == conc(b.off))
